@@ -22,6 +22,9 @@ class PageContext(BaseModel):
     is_first_page: bool
     is_last_page: bool
 
+    # Index of the page's first row in the full table
+    start_row: int = 0
+
     # Layout
     col_widths: list[float]
 
